@@ -385,6 +385,14 @@ def _calibration_plumbing(s, p, det, pipe):
 
             return xr.DataTree()
 
+    import pygmo as pg
+
+    p.attr(pg, "set_global_rng_seed", lambda seed: got.setdefault("global_seeds", []).append(seed), "recorder")
+    # the optimiser seed the user configured: every documented boundary and two ordinary values (the constructor checks membership
+    # in range(100001), which would enumerate on a symbolic integer: the solver picks among stated values instead)
+    gsel = vx.integer("pygmo_seed_choice")
+    vx.assume((gsel >= 0) & (gsel <= 3), "choice among the stated optimiser seeds")
+    pygmo_seed = (0, 1, 7, 100000)[vx.concretize_int(gsel)]
     p.attr(cal, "ModelFittingDataTree", FakeProblem, "records its keyword arguments")
     p.attr(cal, "ArchipelagoDataTree", FakeArchi, "recording stub")
     tmp = tempfile.mkdtemp(prefix="vx_c04_")
@@ -393,12 +401,13 @@ def _calibration_plumbing(s, p, det, pipe):
     p._undo.append((_Cleanup(tfile, tmp), "x", None))
     c = Calibration(target_data_path=[tfile], fitness_function=FitnessFunction(func="pyxel.calibration.fitness.sum_of_abs_residuals"),
                     algorithm=Algorithm(type="sade", generations=1, population_size=5), parameters=[ParameterValues(key="pipeline.photon_collection.p.arguments.a", values="_", boundaries=(0.0, 1.0))],
-                    readout=Readout(times=[1.0]), pygmo_seed=7, pipeline_seed=None)
+                    readout=Readout(times=[1.0]), pygmo_seed=pygmo_seed, pipeline_seed=None)
     c._pipeline_seed = s
     c.run_calibration(processor=Processor(detector=det, pipeline=pipe), output_dir=None, with_inherited_coords=True, with_progress_bar=False)
     ps = got.get("pipeline_seed", "missing")
     vx.prove("C04/plumb/calibration", ps is s or (vx.is_sym(ps) and bool(ps == s)), passed=repr(ps)[:60])
-    vx.prove("C04/plumb/calibration/pygmo_seed", got.get("archi", {}).get("pygmo_seed") == 7)
+    vx.prove("C04/plumb/calibration/pygmo_seed", got.get("archi", {}).get("pygmo_seed") == pygmo_seed and type(got.get("archi", {}).get("pygmo_seed")) is int
+             and got.get("global_seeds") == [pygmo_seed] and c.pygmo_seed == pygmo_seed, configured=pygmo_seed, archipelago=repr(got.get("archi", {}).get("pygmo_seed")), pygmo_global=repr(got.get("global_seeds")))
     return 0
 
 
@@ -534,6 +543,28 @@ def replay(oid, kwargs, model, data):
             res["seeded_runs_identical"] = drawn[0] == drawn[1]
             res["pipeline_seed"] = seed
         return bool(res.get("state_changed_prior1") or res.get("state_changed_prior2") or res.get("seeded_runs_identical") is False), res
+    if data["fn"] == "plumb" and kwargs["mode"] == "calibration" and "pygmo_seed" in oid:
+        from pyxel.calibration import Algorithm, Calibration
+        from pyxel.exposure import Readout
+        from pyxel.observation import ParameterValues
+        from pyxel.pipelines import FitnessFunction
+
+        want = (0, 1, 7, 100000)[int(model.get("pygmo_seed_choice", 0)) % 4]
+        tmp = tempfile.mkdtemp(prefix="vx_c04_")
+        tfile = os.path.join(tmp, "t.npy")
+        np.save(tfile, np.zeros((2, 2)))
+        try:
+            seen = []
+            for _ in range(3):
+                c = Calibration(target_data_path=[tfile], fitness_function=FitnessFunction(func="pyxel.calibration.fitness.sum_of_abs_residuals"),
+                                algorithm=Algorithm(type="sade", generations=1, population_size=5),
+                                parameters=[ParameterValues(key="pipeline.photon_collection.p.arguments.a", values="_", boundaries=(0.0, 1.0))],
+                                readout=Readout(times=[1.0]), pygmo_seed=want, pipeline_seed=3)
+                seen.append(int(c.pygmo_seed))
+        finally:
+            os.remove(tfile)
+            os.rmdir(tmp)
+        return seen != [want] * 3, {"configured_pygmo_seed": want, "optimiser_seed_of_three_identical_configurations": seen}
     if data["fn"] == "plumb" and kwargs["mode"] == "calibration":
         import inspect
 
